@@ -480,6 +480,10 @@ func writeComputedFieldExpression(w *formatting.IndentedWriter, expression dsl.E
 					// the power operator binds tighter than a unary minus: (-a) ** b
 					requiresParentheses = true
 				}
+				if t.Operator == dsl.BinaryOpPow && isNegativeLiteral(t.Left) {
+					// and than the sign of a negative literal: (-0.5) ** b
+					requiresParentheses = true
+				}
 				if l, ok := t.Left.(*dsl.BinaryExpression); ok && l.Operator.Precedence() < t.Operator.Precedence() {
 					requiresParentheses = true
 				}
@@ -1062,4 +1066,14 @@ func typeDefinitionDefault(t dsl.TypeDefinition, contextNamespace string, st dsl
 	}
 
 	return "", defaultValueKindNone
+}
+
+func isNegativeLiteral(expression dsl.Expression) bool {
+	switch e := expression.(type) {
+	case *dsl.IntegerLiteralExpression:
+		return e.Value.Sign() < 0
+	case *dsl.FloatingPointLiteralExpression:
+		return strings.HasPrefix(e.Value, "-")
+	}
+	return false
 }
